@@ -31,7 +31,7 @@ const YKH_TARGET: &str = "/verif/.build/target-ykh";
 const YKH_DEFAULT: &str = "/verif/.build/target-ykh/debug/ykh";
 /// the binary under test; `--ykh PATH` (for trying the harness on a modified copy of the CLI) skips the build
 static YKH: std::sync::OnceLock<String> = std::sync::OnceLock::new();
-const RUN_LIMIT: Duration = Duration::from_secs(20);
+const RUN_LIMIT: Duration = Duration::from_secs(10);
 
 // ---------------------------------------------------------------------------------------------------------------
 // cases
@@ -763,10 +763,16 @@ fn main() {
                     let fmt = if tab.bigraded { "bigraded" } else { "graded" };
                     reply = match ring { Some((b, v)) => format!("ring {} {} exit=0", ring_tag(b, v), fmt), None => format!("ring ? {} exit=0", fmt) };
                     sink.count(&format!("outcome.table.{}", ring.map(|(b, v)| ring_tag(b, v)).unwrap_or("?".into())));
+                    if c.cmd == Cmd::Kh && matches!(c.cval.as_str(), "0" | "0,0" | "H" | "0,T") {
+                        sink.oracle(tab.bigraded, "for h = t = 0 and for the graded theories -c H and -c 0,T the groups are listed by (i,j)", &desc, &trunc(&o.stdout, 200));
+                    }
                     if cell_err.is_none() {
                         match (ring, &link, lclass) {
                             (_, _, LinkClass::Invalid) | (_, _, LinkClass::Panics) | (_, None, _) =>
                                 sink.oracle(false, "a malformed or unknown link argument is reported as an error, never as a table", &desc, &trunc(&o.stdout, 300)),
+                            (None, _, _) if sym.is_none() =>
+                                // Khovanov homology / the Khovanov complex of a link is never zero (its Euler characteristic is the Jones polynomial)
+                                sink.oracle(false, "the table lists exactly the non-zero groups the library computes, in the right (i,j) cells", &desc, &format!("the printed table has no non-zero cell: {}", trunc(&o.stdout, 300))),
                             (None, _, _) =>
                                 sink.oracle(false, "the table's groups are over a known coefficient ring", &desc, &format!("symbol {:?}: {}", sym, trunc(&o.stdout, 300))),
                             (Some((b, v)), Some(l), _) => {
